@@ -1148,6 +1148,10 @@ class Exec:
         for x, y in ((a, b), (b, a)):
             if isinstance(x, Bound) and x.name == "__type__" and isinstance(y, Ref):
                 return self.isinstance_(x.obj, y)
+        # type(x) is type(y): classes are unique objects, so identity of the two is equality of the
+        # (uninterpreted) type_of values
+        if isinstance(a, Bound) and a.name == "__type__" and isinstance(b, Bound) and b.name == "__type__":
+            return self.to_py(a) == self.to_py(b)
         # identity: only meaningful for singletons / classes in term view
         if isinstance(a, Ref) and isinstance(b, Ref):
             return z3.BoolVal(a.kind == b.kind and a.name == b.name)
